@@ -261,10 +261,15 @@ fn elif(rng: &mut Rng) -> String {
 fn hash(rng: &mut Rng, directive: &str) -> String {
     // `#x`, `# x`, `  #x`
     let body = directive.strip_prefix('#').unwrap_or(directive);
-    match weighted(rng, &[8, 1, 1]) {
+    // ... and with a comment in front of the "#" on the same line (a comment is white space)
+    // (only one-line comments: a comment that starts on an earlier line would make "the line
+    // the construct starts on" a question the k-line shift of C14 has no answer to)
+    match weighted(rng, &[16, 2, 2, 1, 1]) {
         0 => format!("#{body}"),
         1 => format!("# {body}"),
-        _ => format!("  #{body}"),
+        2 => format!("  #{body}"),
+        3 => format!("/* c */ #{body}"),
+        _ => format!("/* a */ /* b */  # {body}"),
     }
 }
 
@@ -312,9 +317,48 @@ fn dangling_leaf_graph(rng: &mut Rng, form: Form) -> Graph {
     }
 }
 
+/// The same header, byte for byte, vendored into two or three directories, each copy with
+/// `#pragma once`, each included (once or twice) under a different definition of a macro it uses:
+/// every *file* contributes once - files are told apart by where they are, not by what is in them
+fn twin_files_graph(rng: &mut Rng, form: Form) -> Graph {
+    let dirs = ["a", "b", "third_party/x", "inc"];
+    let mut chosen: Vec<&str> = dirs.to_vec();
+    rng.shuffle(&mut chosen);
+    chosen.truncate(rng.range(2, 3) as usize);
+    let body = match form {
+        Form::Pre => "#pragma once\nm_twin TWIN_ARG ;\n".to_string(),
+        Form::Compile => "#pragma once\nstatic const int TWIN_ARG = 1 ;\n".to_string(),
+    };
+    let mut fs = FsSpec::new(if rng.chance(1, 2) { Policy::ParentRelative } else { Policy::Flat });
+    let mut main = String::new();
+    for (i, d) in chosen.iter().enumerate() {
+        fs.files.insert(format!("{d}/twin.h"), body.clone());
+        main.push_str(&format!("#define TWIN_ARG m_twin_{i}\n#include \"{d}/twin.h\"\n"));
+        if rng.chance(1, 2) {
+            main.push_str(&format!("#include \"{d}/twin.h\"\n"));
+        }
+        main.push_str("#undef TWIN_ARG\n");
+    }
+    main.push_str(match form {
+        Form::Pre => "m_0_1 9 ;\n",
+        Form::Compile => "static const int m_0_1 = 9 ;\n",
+    });
+    fs.files.insert("main.rssl".into(), main);
+    Graph {
+        fs,
+        entry: "main.rssl".into(),
+        defines: Vec::new(),
+        form,
+        mode: Mode::Hostile,
+    }
+}
+
 pub fn generate(rng: &mut Rng, mode: Mode, form: Form) -> Graph {
     if mode == Mode::Hostile && rng.chance(1, 16) {
         return dangling_leaf_graph(rng, form);
+    }
+    if mode == Mode::Hostile && rng.chance(1, 24) {
+        return twin_files_graph(rng, form);
     }
     let n = [2usize, 3, 4, 5, 6, 7, 8][weighted(rng, &[3, 4, 4, 3, 2, 1, 1])];
 
@@ -757,6 +801,12 @@ pub fn generate(rng: &mut Rng, mode: Mode, form: Form) -> Graph {
             },
         };
         defines.push((name.to_string(), v));
+    }
+    // a name may be given twice: like two #define lines, the later value counts
+    if defines.len() >= 2 && rng.chance(1, 6) {
+        let (name, _) = defines[0].clone();
+        let last = defines.len() - 1;
+        defines[last].0 = name;
     }
 
     Graph {
